@@ -69,7 +69,11 @@ Pool == <<
   \* 28: the untagged twin of rule 7 (same pattern and directive, no tag): a different rule, must be accepted
   [W("x.com^") EXCEPT !.left = "dpipe", !.mkind = "csp", !.mval = "d1"],
   \* 29: a redirect-rule EXCEPTION is also an exception (rule 10 blocks /ab-)
-  [W("/ab-") EXCEPT !.exc = TRUE, !.mkind = "redirect-rule", !.mval = "r1"]
+  [W("/ab-") EXCEPT !.exc = TRUE, !.mkind = "redirect-rule", !.mval = "r1"],
+  \* 30, 31: two $removeparam rules with one pattern, mask and bucket (initial list): the removeparam list is never
+  \* optimised - fused, only the first rule's parameter would still be removed
+  [W("/p") EXCEPT !.mkind = "removeparam", !.mval = "q"],
+  [W("/p") EXCEPT !.mkind = "removeparam", !.mval = "r"]
 >>
 \* resources (C06: answers are a function of the LOADED resources): r1 has the alias al1, a later resource
 \* NAMED al1 collides with it - whichever is added first wins; p1 needs a permission and is never served
@@ -84,7 +88,7 @@ ResSeq(st) == [i \in DOMAIN st |-> ResPool[st[i]]]
 StoreNow == EffectiveStore(ResSeq(store))
 UseChoices == {<<>>, <<1, 2>>, <<3, 1>>, <<1, 3, 4>>, <<2>>, <<1, 5>>, <<5, 1>>}
 PoolX == Pool
-InitRules == IF InitSet = "full" THEN <<1, 2, 3, 4, 5, 6, 7, 8, 10, 11, 23, 24, 26, 27>>
+InitRules == IF InitSet = "full" THEN <<1, 2, 3, 4, 5, 6, 7, 8, 10, 11, 23, 24, 26, 27, 30, 31>>
              ELSE IF InitSet = "res" THEN <<15, 16, 17, 18, 19, 13, 3>> ELSE <<3, 5, 7, 13>>
 Addable == IF Mode = "blocker" THEN {9, 12, 14, 20, 21, 22, 25, 28, 29} ELSE {}
 
